@@ -881,6 +881,9 @@ def own_ix(run, ctx):
         if nd.get("k") in ("Assign", "AssignOp") and H.canon(nd["l"]) == "ix":
             op = "=" if nd["k"] == "Assign" else H.OPSYM.get(nd["op"].replace("Assign", ""), nd["op"]) + "="
             rhs = H.canon(nd["r"])
+            r_ = H.peel(nd["r"])
+            if op == "=" and r_.get("k") == "Binary" and r_.get("op") == "Add" and "ix" in (H.canon(r_["l"]), H.canon(r_["r"])):
+                op, rhs = "+=", H.canon(r_["r"] if H.canon(r_["l"]) == "ix" else r_["l"])      # ix = ix + e
             n += 1
             ok = False
             for aop, pat, why in approved:
